@@ -45,13 +45,15 @@ enum Op : int {
   kWhenAnyCopies,
   kCoAwait,       // a coroutine co_awaits the copy (value by const&, failure rethrown)
   kCoAwaitAwait,  // a coroutine co_awaits Await(copy), then reads the copy, which must be ready
+  kWhenAllOwn,  // WhenAll<None>(std::move(own copy), other ready shared future): consumes the observer's copy, always last
+  kWhenAnyOwn,  // WhenAny(std::move(own copy), own copy's duplicate): consumes the observer's copy, always last
   kGetMove,     // consumes the observer's copy: always last
   kDropCopy,    // destroys the observer's copy: always last
   kOpCount
 };
 const char* kOpNames[] = {"ThenInline", "Then(e)", "SubscribeInline", "Subscribe(e)", "Share().Get", "Share(e).ThenInline", "Connect(unique promise)",
                           "Connect(shared promise)", "Wait+Touch", "Get const&", "Ready()+Touch", "copy, use the copy, destroy it", "WhenAll(copy, copy)",
-                          "WhenAny(copy, copy)", "co_await copy", "co_await Await(copy)", "Get&&", "drop own copy"};
+                          "WhenAny(copy, copy)", "co_await copy", "co_await Await(copy)", "WhenAll(move(own), other)", "WhenAny(move(own), copy)", "Get&&", "drop own copy"};
 enum Producer : int { kSetValue, kSetError, kSetException, kDropPromise, kProducerCount };
 const char* kProducerNames[] = {"Set(value)", "Set(error)", "Set(exception)", "drop promise"};
 
@@ -87,11 +89,12 @@ class Case final : public sim::CaseBase {
       const std::uint32_t n = 1 + g.Draw(max_ops);
       for (std::uint32_t k = 0; k < n; ++k) {
         int op = static_cast<int>(g.Draw(kOpCount));
-        if (by_reference && (op == kGetMove || op == kDropCopy)) {
+        const bool consumes = op == kGetMove || op == kDropCopy || op == kWhenAllOwn || op == kWhenAnyOwn;
+        if (by_reference && consumes) {
           op = kGetConst;
         }
         ops.push_back(op);
-        if (op == kGetMove || op == kDropCopy) {
+        if (!by_reference && consumes) {
           break;
         }
       }
@@ -258,6 +261,28 @@ class Case final : public sim::CaseBase {
           auto r = std::move(f).Get();
           if (!r) {
             sim::Fail("COROUTINE_FAILED", "the observer coroutine did not finish with a value");
+          }
+        } break;
+        case kWhenAllOwn: {
+          if (own != nullptr) {
+            auto [of, opr] = yaclib::MakeSharedContract<T, E>();
+            std::move(opr).Set(T{777});
+            auto f = yaclib::WhenAll<yaclib::FailPolicy::None>(std::move(*own), std::move(of));
+            *own = SF{};
+            auto r = std::move(f).Get();
+            if (!r || std::as_const(r).Value().size() != 2) {
+              sim::Fail("WRONG_RESULT", "WhenAll<None>(own, other) did not produce two results");
+            } else {
+              Saw(o, op, sim::Observe(std::as_const(r).Value()[0], "WhenAll(move(own), other)[0]"));
+            }
+          }
+        } break;
+        case kWhenAnyOwn: {
+          if (own != nullptr) {
+            SF dup = *own;
+            auto f = yaclib::WhenAny(std::move(*own), std::move(dup));
+            *own = SF{};
+            Saw(o, op, sim::Observe(std::move(f).Get(), "WhenAny(move(own), copy)"));
           }
         } break;
         case kGetMove: {
